@@ -107,6 +107,7 @@ CONTRACTS.update({
         loops=SUMLOOP,
     ),
     F + '::nu_eval_spline_1d_vector': dict(
+        implements=['spline1d_vector'],
         requires=DOMAIN + ['der == 0 or der == 1', 'len(coeffs) >= len(knots) - degree - 1', 'len(y) >= len(x)'],
         modifies=['y'],
         ensures=['forall(0, len(x), lambda i: let(nu_find_span(knots, degree, x[i]), lambda span: y[i] == %s))'
@@ -231,6 +232,7 @@ def vector_loops(S=S_vec):
 
 CONTRACTS.update({
     F + '::nu_eval_spline_2d_cross': dict(
+        implements=['spline2d_cross'],
         requires=DOMAIN2 + ['shape(z)[0] >= len(X)', 'shape(z)[1] >= len(Y)'],
         modifies=['z'],
         ensures=['forall(0, len(X), 0, len(Y), lambda p, q: %s)' % S_cross('p', 'q')],
